@@ -222,8 +222,31 @@ def random_jobs(ctx, prop, count):
             # code's 1e-10 move threshold, so "zero" gains trigger moves and the exact reading of the
             # threshold (DESIGN 3.3) no longer holds - both would be false alarms
             job["dtype"] = rng.choice(["int", "int32"])
+            # (seed round 7) the routines that copy / promote their input before any arithmetic give, on
+            # the unchanged tree, the very same result for boolean and 8-bit networks as for float64
+            # (sampled 500 calls); the multi-level Louvain routines do not (in-place arithmetic in the
+            # argument's type - the caller-side pitfall above) and keep the wide signed types
+            if fn in ("modularity_finetune_und", "modularity_finetune_dir", "community_louvain",
+                      "modularity_und", "modularity_dir") and rng.random() < 0.6:
+                job["dtype"] = rng.choice(["bool", "int8", "uint8"])
         if rng.random() < 0.2:
             job["layout"] = "F"
+        jobs.append(job)
+    # boolean / 8-bit networks with a given start partition (seed round 7): the node-to-module sums of
+    # the set-up phase are then taken over a narrow-typed matrix (a product or sum in the argument's
+    # type saturates for bool and wraps for int8); binary networks stored as bool are ordinary input
+    for t in range(max(40, count // 8)):
+        fn = rng.choice(["modularity_finetune_und", "modularity_finetune_dir", "community_louvain"])
+        und = fn != "modularity_finetune_dir"
+        n = rng.randint(6, 10)
+        W = inputs.rand_graph(rng, n, rng.choice([0.4, 0.6, 0.8]), und=und, wmax=1)
+        if W.sum() == 0:
+            continue
+        gn, gd = rng.choice(GAMMAS + [(1, 1)])
+        job = dict(fn=fn, prop=prop, W=W.tolist(), gn=gn, gd=gd, seed=rng.randrange(2 ** 31), src="random-narrow",
+                   start=rand_partition(rng, n, None), feedback=1, dtype=rng.choice(["bool", "bool", "int8", "uint8"]))
+        if fn == "community_louvain":
+            job["objective"] = "modularity"
         jobs.append(job)
     # multi-level structure: rings of small cliques / long cycles make the optimisers aggregate over
     # three or more levels with real merging at every level (random graphs on <= 8 nodes rarely do)
@@ -314,13 +337,15 @@ def random_jobs(ctx, prop, count):
             if not ((W > 0).any() and (W < 0).any()):
                 continue
             jobs.append(dict(fn="modularity_und_sign", given=1, prop=prop, W=W.tolist(), gn=1, gd=1,
-                             qtype=QTYPES[t % 5], start=rand_partition(rng, len(W), labels_pool), src="given"))
+                             qtype=QTYPES[t % 5], start=rand_partition(rng, len(W), labels_pool), src="given",
+                             start_form=rng.choice(["array", "array", "list", "tuple", "float"])))
         else:
             W = inputs.rand_graph(rng, n, 0.6, und=(which == 0), wmax=3)
             if W.sum() == 0:
                 continue
             jobs.append(dict(fn=["modularity_und", "modularity_dir"][which], given=1, prop=prop,
-                             W=W.tolist(), gn=gn, gd=gd, start=rand_partition(rng, n, labels_pool), src="given"))
+                             W=W.tolist(), gn=gn, gd=gd, start=rand_partition(rng, n, labels_pool), src="given",
+                             start_form=rng.choice(["array", "array", "row", "row", "list", "tuple", "float"])))
     return jobs
 
 
